@@ -246,3 +246,67 @@ Section MaintProofs.
   Lemma refresh_silent_good_preserving now : good_preserving now refresh_silent.
   Proof. intros i l n Hin _. exact Hin. Qed.
 End MaintProofs.
+
+(* ------------------------------------------------------------------ structure of the table (C05)
+   The maintainer writes liveness state only: ids, addresses and bucket slots of the entries - hence the number of
+   entries, the bucket sizes, the placement of every entry - are the same after a pass as before it, provided the
+   refreshes keep them (the packet path's business: C05's invariant). *)
+Section MaintStructure.
+  Variable id_secure : N -> bytes -> bool.
+  Variable cfg : config.
+
+  Definition shape (n : node) : N * addr * nat := (n_id n, n_addr n, n_slot n).
+
+  Lemma apply_update_shape now u n : shape (apply_update now u n) = shape n.
+  Proof. destruct u; reflexivity. Qed.
+
+  Lemma settle_ping_shape now answers n : shape (settle_ping now answers n) = shape n.
+  Proof. unfold settle_ping. destruct (answers n); apply apply_update_shape. Qed.
+
+  Lemma after_pings_shape now answers nodes i :
+    map shape (after_pings id_secure cfg now answers nodes i) = map shape nodes.
+  Proof.
+    unfold after_pings. rewrite map_map. apply map_ext. intros n.
+    destruct (Nat.eqb (n_slot n) i && m_quest id_secure cfg now n); [apply settle_ping_shape | reflexivity].
+  Qed.
+
+  Lemma refresh_answering_shape now answersf i nodes :
+    map shape (refresh_answering id_secure cfg now answersf i nodes) = map shape nodes.
+  Proof.
+    unfold refresh_answering. rewrite map_map. apply map_ext. intros n.
+    destruct (negb (m_bad id_secure cfg n) && answersf n); [apply apply_update_shape | reflexivity].
+  Qed.
+
+  Definition shape_preserving (refresh : nat -> list node -> list node) : Prop :=
+    forall i l, map shape (refresh i l) = map shape l.
+
+  Lemma pass_from_shape fuel i now answers refresh nodes :
+    shape_preserving refresh ->
+    map shape (snd (pass_from id_secure cfg fuel i now answers refresh nodes)) = map shape nodes.
+  Proof.
+    intros Hr. revert i nodes. induction fuel as [|f IH]; intros i nodes; cbn [pass_from]; [reflexivity|].
+    pose proof (after_pings_shape now answers nodes i) as H1.
+    destruct (should_stop id_secure cfg (after_pings id_secure cfg now answers nodes i) i).
+    - specialize (IH (S i) (after_pings id_secure cfg now answers nodes i)).
+      destruct (pass_from id_secure cfg f (S i) now answers refresh (after_pings id_secure cfg now answers nodes i)) as [ph nf].
+      cbn [snd] in *. rewrite IH. exact H1.
+    - pose proof (Hr i (after_pings id_secure cfg now answers nodes i)) as H2.
+      destruct (should_stop id_secure cfg (refresh i (after_pings id_secure cfg now answers nodes i)) i).
+      + specialize (IH (S i) (refresh i (after_pings id_secure cfg now answers nodes i))).
+        destruct (pass_from id_secure cfg f (S i) now answers refresh (refresh i (after_pings id_secure cfg now answers nodes i))) as [ph nf].
+        cbn [snd] in *. rewrite IH, H2. exact H1.
+      + cbn [snd]. rewrite H2. exact H1.
+  Qed.
+
+  (* bucket sizes are a function of the shape *)
+  Lemma bucket_length_shape (l m : list node) i :
+    map shape l = map shape m -> length (bucket l i) = length (bucket m i).
+  Proof.
+    revert m. induction l as [|x l IH]; intros [|y m] H; try discriminate H; [reflexivity|].
+    cbn [map] in H. assert (Hx : shape x = shape y) by congruence.
+    assert (Hl : map shape l = map shape m) by congruence.
+    unfold bucket in *. cbn [filter].
+    assert (Hs : n_slot x = n_slot y) by (unfold shape in Hx; congruence).
+    rewrite Hs. destruct (Nat.eqb (n_slot y) i); cbn [length]; rewrite (IH m Hl); reflexivity.
+  Qed.
+End MaintStructure.
